@@ -96,7 +96,7 @@ func goCeremonyFromOpPlain(op M) *goCeremony {
 		if uv, ok := op["authSelUV"].(string); ok {
 			g.regOpts.AuthenticatorSelection = &webauthn.AuthenticatorSelectionCriteria{UserVerification: webauthn.UserVerificationRequirement(unhx(uv))}
 		}
-		g.regCred = &webauthn.PublicKeyCreationCredential{RawID: unhx(op["rawId"].(string)),
+		g.regCred = &webauthn.PublicKeyCreationCredential{RawID: unhx(op["rawId"].(string)), ClientExtensionResults: clientExtOf(op),
 			Response: webauthn.AuthenticatorAttestationResponse{ClientDataJSON: unhx(op["cdj"].(string)), AttestationObject: unhx(op["attObj"].(string))}}
 		g.vopts = verifyOptsFromOp(op)
 		return g
@@ -106,7 +106,7 @@ func goCeremonyFromOpPlain(op M) *goCeremony {
 	for i, id := range hexList(op["allow"]) {
 		g.authO.AllowCredentials = append(g.authO.AllowCredentials, webauthn.PublicKeyCredentialDescriptor{Type: descriptorType(op, i), ID: id})
 	}
-	g.authC = &webauthn.PublicKeyAssertionCredential{RawID: unhx(op["rawId"].(string)),
+	g.authC = &webauthn.PublicKeyAssertionCredential{RawID: unhx(op["rawId"].(string)), ClientExtensionResults: clientExtOf(op),
 		Response: webauthn.AuthenticatorAssertionResponse{ClientDataJSON: unhx(op["cdj"].(string)), AuthenticatorData: unhx(op["authData"].(string)),
 			Signature: unhx(op["sig"].(string)), UserHandle: unhx(op["userHandle"].(string))}}
 	return g
